@@ -311,13 +311,13 @@ PROPS = {
         kani=[],
         witness='enum:capi-list',
         design_ref='DESIGN.md section 4, C17',
-        level_text=('Proof (Verus, under extraction rule R10 which turns the pointer protocol into types) for 53 of the extern "C" functions. '
+        level_text=('Proof (Verus, under extraction rule R10 which turns the pointer protocol into types) for 55 of the extern "C" functions. '
                     'Constructors (marker, na, remove, bool, number, coord, list): the handle holds exactly the value the Rust constructor makes; the string constructors (str, ref, ref with dis, uri, symbol) hold the value built from the text of the C string and return no handle for null or invalid UTF-8 (CStr::from_ptr is proved never to be applied to null). '
                     'Kind tests (all 18 haystack_value_is_*): the Rust predicate on a live handle, false on a null one. Scalar getters (coord lat/long, '
                     'number value / has_unit, dict / grid / str length, date year/month/day, time hour/minutes/seconds/millis): the component of the '
                     'wrapped value, and the documented sentinel (NaN, usize::MAX, u32::MAX, ERR) for a null handle or a handle of another kind. '
                     'get_datetime_date / get_datetime_time: the UTC or the local date / time as the flag asks, written into the result handle, which is '
-                    'left unchanged on failure. get_grid_row_at: the index-th row as a Dict value, ERR and an unchanged result out of range. insert_dict_entry / remove_dict_entry behave as insert / remove on the map the handle wraps and leave it unchanged on failure. '
+                    'left unchanged on failure. get_grid_row_at: the index-th row as a Dict value, ERR and an unchanged result out of range. insert_dict_entry / remove_dict_entry behave as insert / remove on the map the handle wraps and leave it unchanged on failure; get_list_entry_at / get_dict_entry hand out a pointer to the stored entry (a missing key is FALSE, not an error), the out-parameter being modelled as a slot for a borrowed reference. '
                     'The list part: '
                     'haystack_value_get_list_len / push_list_entry / set_list_entry_at / remove_list_entry_at behave as len / push / update / '
                     'remove on the sequence the handle wraps, return TRUE exactly in those cases, and on every failure (wrong kind, null entry, '
@@ -326,7 +326,7 @@ PROPS = {
         not_decided=('R10 assumes handles are live and unaliased (the ownership protocol of C18) and that a mutated handle is non-null; '
                      'that the error message is retrievable through last_error_message (thread-local); every constructor/getter that '
                      'returns a CString (string getters, dict keys, zinc/json/filter entry points), borrowed entry pointers '
-                     '(*mut *const Value: get_list_entry_at, get_dict_entry), make_xstr and the grid constructors (iterator adapters), timestamp constructors -- 38 of the 91 extern "C" functions. '
+                     'make_xstr and the grid constructors (iterator adapters), timestamp constructors -- 36 of the 91 extern "C" functions. '
                      'chrono accessors are uninterpreted (distinct names for distinct accessors).'),
     ),
     'C11': dict(
